@@ -1,26 +1,38 @@
 #!/bin/bash
 # regress.sh: re-run the quick tier against every kept seeded change (expected: exit 1)
 # and every neutral patch (expected: exit 0). Prints one line each; exit 1 if any differs.
+# REGRESS_PAR jobs run side by side (default 4), each with DSIM_WORKERS workers (default 4).
 cd "$(dirname "$0")/.." || exit 2
 V="$(pwd)"
-bad=0
-run() { # patch prop expected
-  out=$(./dsim/try_mutant.sh "$1" "$2" quick 2>&1); rc=$?
-  rules=$(echo "$out" | grep -o "rule [A-Za-z0-9-]*" | sort -u | tr '\n' ' ')
-  st=ok; [ "$rc" = "$3" ] || { st=UNEXPECTED; bad=1; }
-  echo "$st exit=$rc want=$3 $2 $1 $rules"
-}
+PAR="${REGRESS_PAR:-4}"
+export DSIM_WORKERS="${DSIM_WORKERS:-4}"
+jobs=$(mktemp)
+add() { echo "$1 $2 $3" >> "$jobs"; } # patch prop expected
 for d in seeded/*/; do
   id=$(basename "$d"); prop=${id%%-*}
-  run "$V/${d}patch.diff" "$prop" 1
+  add "$V/${d}patch.diff" "$prop" 1
 done
 for p in mutants/*.patch; do
   n=$(basename "$p" .patch)
   case "$n" in
-    neutral-c10-*) run "$V/$p" C10 0;; neutral-c11-*) run "$V/$p" C11 0;; neutral-c12-*) run "$V/$p" C12 0; run "$V/$p" C11 0;; neutral-c13-*) run "$V/$p" C13 0;; neutral-c14-*) run "$V/$p" C14 0;; neutral-c18-*) run "$V/$p" C18 0;;
-    c14-rbuf-reused) run "$V/$p" C14 0;;
-    revert-F1) run "$V/$p" C10 1;; revert-F2) run "$V/$p" C11 1; run "$V/$p" C12 1;; revert-F3) run "$V/$p" C18 1;; revert-F4) run "$V/$p" C08 1;;
-    c10-*) run "$V/$p" C10 1;; c11-*) run "$V/$p" C11 1;; c12-*) run "$V/$p" C12 1;; c13-*) run "$V/$p" C13 1;; c18-*) run "$V/$p" C18 1;; c08-*) run "$V/$p" C08 1;; c14-*) run "$V/$p" C14 1;;
+    neutral-c10-*) add "$V/$p" C10 0; [ "$n" = neutral-c10-nclient6-polling-read-deadline ] && add "$V/$p" C11 0;; neutral-c11-*) add "$V/$p" C11 0;; neutral-c12-*) add "$V/$p" C12 0; add "$V/$p" C11 0;; neutral-c13-*) add "$V/$p" C13 0;; neutral-c14-*) add "$V/$p" C14 0;; neutral-c18-*) add "$V/$p" C18 0;;
+    c14-rbuf-reused) add "$V/$p" C14 0;;
+    revert-F1) add "$V/$p" C10 1;; revert-F2) add "$V/$p" C11 1; add "$V/$p" C12 1;; revert-F3) add "$V/$p" C18 1;; revert-F4) add "$V/$p" C08 1;;
+    c10-*) add "$V/$p" C10 1;; c11-*) add "$V/$p" C11 1;; c12-*) add "$V/$p" C12 1;; c13-*) add "$V/$p" C13 1;; c18-*) add "$V/$p" C18 1;; c08-*) add "$V/$p" C08 1;; c14-*) add "$V/$p" C14 1;;
   esac
 done
-exit $bad
+one() { # patch prop expected
+  t=$(mktemp -d "${TMPDIR:-/tmp}/regress-XXXXXX")
+  out=$(TMPDIR="$t" "$V/dsim/try_mutant.sh" "$1" "$2" quick 2>&1); rc=$?
+  rm -rf "$t"
+  rules=$(echo "$out" | grep -o "rule [A-Za-z0-9-]*" | sort -u | tr '\n' ' ')
+  st=ok; [ "$rc" = "$3" ] || st=UNEXPECTED
+  echo "$st exit=$rc want=$3 $2 $1 $rules"
+}
+export -f one; export V
+out=$(mktemp)
+xargs -P "$PAR" -L 1 bash -c 'one "$0" "$1" "$2"' < "$jobs" | tee "$out"
+bad=$(grep -c "^UNEXPECTED" "$out")
+echo "regress: $(wc -l < "$out") runs, $bad unexpected"
+rm -f "$jobs" "$out"
+[ "$bad" = 0 ]
